@@ -3,6 +3,8 @@ against that worktree (PYTHONPATH + PYVC_REPO), remove the worktree.  /repo itse
 usage: tools/seedrun.py <dir with patch.diff [+ demo.py]> <Cxx> [<Cxx> ...]"""
 import os
 import subprocess
+import functools
+print = functools.partial(print, flush=True)
 import sys
 import tempfile
 
